@@ -7,6 +7,10 @@ R-SYMPAIR  symbols that are re-created at a consumer instead of being passed are
 R-XSTORE   on every path through formulate a symbol is stored in at most one of
            parameter_defaults / kinematic_variables.
 R-CREATE   coefficient / coupling symbols are registered as parameters where they are created.
+
+The rules that are anchored on one function (formulate, __formulate_dynamics, ...) read its *effective*
+body (sa/inline.py E3b ``flatten``): private helpers whose value is discarded are spliced back in, single
+``return E`` helpers are substituted, and locals that merely alias ``self.<path>`` are replaced by the path.
 """
 
 from __future__ import annotations
@@ -15,6 +19,7 @@ import ast
 import re
 
 from ..dataflow import RD
+from ..inline import flatten
 from ..loader import AnalysisError, FuncInfo, Tree, ancestors, unparse, walk_function
 from ..paths import PathWalker
 from ..report import Check
@@ -94,15 +99,34 @@ def derives_from_domain(tree: Tree, fn: FuncInfo, expr: ast.AST, depth: int = 0,
     return None
 
 
-def check_domain(ctx: Check, tree: Tree) -> None:
-    formulate = tree.func(FORMULATE)
-    model_calls = [c for c, callee in tree.calls_in(formulate) if callee == MODEL]
-    if len(model_calls) != 1:
+def _model_argument(tree: Tree, keyword: str) -> ast.AST:
+    """The value passed as ``keyword=`` to HelicityModel(...) in the effective formulate()."""
+    formulate = flatten(tree, tree.func(FORMULATE))
+    calls = [c for c, callee in tree.calls_in(formulate) if callee == MODEL]
+    if len(calls) != 1:
         raise AnalysisError(f"{FORMULATE}: expected one HelicityModel(...) construction")
-    amp_arg = next((k.value for k in model_calls[0].keywords if k.arg == "amplitudes"), None)
-    if amp_arg is None:
-        raise AnalysisError("HelicityModel(...) is not given amplitudes=")
-    table = unparse(amp_arg)  # self.__ingredients.amplitudes
+    arg = next((k.value for k in calls[0].keywords if k.arg == keyword), None)
+    if arg is None:
+        raise AnalysisError(f"HelicityModel(...) is not given {keyword}=")
+    return arg
+
+
+def _update_keys(call: ast.Call) -> list[ast.AST]:
+    """Key expressions of ``table.update(arg)`` / ``table.setdefault(key, ...)``: the key of a dict
+    comprehension / the keys of a dict display (not its values or filters), else the whole argument."""
+    if not call.args:
+        return [k.value for k in call.keywords] or [call]
+    arg = call.args[0]
+    if isinstance(arg, ast.DictComp):
+        return [arg.key]
+    if isinstance(arg, ast.Dict) and arg.keys and all(k is not None for k in arg.keys):
+        return list(arg.keys)
+    return [arg]
+
+
+def check_domain(ctx: Check, tree: Tree) -> None:
+    # local aliases of attribute paths (`amplitudes = self.__ingredients.amplitudes`) are looked through (H-ALIAS)
+    table = unparse(_model_argument(tree, "amplitudes"))  # self.__ingredients.amplitudes
     # the summation domain reaches the PoolSum of the intensity
     graph = tree.call_graph()
     reach = tree.reachable(FORMULATE, graph)
@@ -122,6 +146,7 @@ def check_domain(ctx: Check, tree: Tree) -> None:
         fn = tree.funcs.get(q)
         if fn is None:
             continue
+        fn = flatten(tree, fn, inline=False)
         for node in walk_function(fn.node, nested=False):
             if isinstance(node, ast.Assign) and isinstance(node.targets[0], ast.Subscript) and unparse(node.targets[0].value) == table:
                 stores.append((fn, node))
@@ -131,12 +156,12 @@ def check_domain(ctx: Check, tree: Tree) -> None:
         raise AnalysisError(f"no store into {table} reachable from formulate")
     covering = []
     for fn, node in stores:
-        key_expr = node.targets[0].slice if isinstance(node, ast.Assign) else (node.args[0] if node.args else node)
+        key_exprs = [node.targets[0].slice] if isinstance(node, ast.Assign) else _update_keys(node)
         # the summation domain is the whole (unfolded) intensity - including the inner sums that
         # a spin alignment adds - not just the outer pools: the key must derive from the PoolSum
         DOMAIN_MARK["callee"] = "ampform.sympy::PoolSum"
         try:
-            why = derives_from_domain(tree, fn, key_expr)
+            why = next((w for w in (derives_from_domain(tree, fn, k) for k in key_exprs) if w), None)
         finally:
             DOMAIN_MARK["callee"] = COLLECT
         what = f"{fn.qual}: `{unparse(node)[:70]}`"
@@ -291,14 +316,16 @@ def check_sympairs(ctx: Check, tree: Tree) -> None:
                     ok = False
         ctx.verdict(ok, "R-SYMPAIR", f"{q}::suffix", tree.loc(fn.node), f"{q.split('::')[-1]}: the angle suffix is get_helicity_suffix(topology, state id)")
     # the back-substitution filter in formulate selects exactly the mass family
-    formulate = tree.func(FORMULATE)
+    # (read in the effective formulate: a private helper that selects the symbols is part of it, sa/inline.py E3b)
+    formulate = flatten(tree, tree.func(FORMULATE))
     ok = False
-    for comp in [n for n in walk_function(formulate.node) if isinstance(n, (ast.ListComp, ast.GeneratorExp))]:
+    for comp in [n for n in walk_function(formulate.node) if isinstance(n, (ast.ListComp, ast.GeneratorExp, ast.SetComp))]:
         gen = comp.generators[0]
         if not isinstance(gen.target, ast.Name):
             continue
         v = gen.target.id
-        tests = [unparse(t).replace('"', "'") for t in gen.ifs]
+        conjuncts = [c for t in gen.ifs for c in (t.values if isinstance(t, ast.BoolOp) and isinstance(t.op, ast.And) else [t])]
+        tests = [unparse(t).replace('"', "'") for t in conjuncts]
         if any(t == f"{v}.name.startswith('m_')" for t in tests) and any(t == f"{v}.is_nonnegative" for t in tests):
             ok = True
     ctx.verdict(ok, "R-SYMPAIR", f"{FORMULATE}::mass-filter", tree.loc(formulate.node), "formulate recognises leftover mass symbols by the `m_` prefix and the nonnegative assumption of the family")
@@ -308,7 +335,9 @@ def check_sympairs(ctx: Check, tree: Tree) -> None:
 
 
 def check_xstore(ctx: Check, tree: Tree) -> None:
-    fn = tree.func(FORMULATE)
+    # the effective formulate (sa/inline.py E3b): statements that were extracted into private helper methods are
+    # spliced back in, and local aliases of the two mappings are replaced by the attribute paths they stand for
+    fn = flatten(tree, tree.func(FORMULATE))
     model_call = next(c for c, callee in tree.calls_in(fn) if callee == MODEL)
     par = unparse(next(k.value for k in model_call.keywords if k.arg == "parameter_defaults"))
     kin = unparse(next(k.value for k in model_call.keywords if k.arg == "kinematic_variables"))
@@ -379,7 +408,7 @@ def check_xstore(ctx: Check, tree: Tree) -> None:
                 kin_keys[k] = node
                 deleted.discard(k)
                 for dom, dnode in fam_dels.items():
-                    if isinstance(node.targets[0].slice, ast.Name) and not _guarded_against(since_iter, dom, par, node.targets[0].slice.id):
+                    if isinstance(node.targets[0].slice, ast.Name) and not _guarded_against(since_iter, dom, par, node.targets[0].slice.id, rd):
                         readds[id(node)] = (node, dnode, dom)
                 if k in par_keys:
                     conflicts[id(par_keys[k])] = (par_keys[k], node)
@@ -417,14 +446,22 @@ def check_xstore(ctx: Check, tree: Tree) -> None:
             ctx.violation("R-XSTORE", f"{FORMULATE}::{unparse(b)[:80]}::both", tree.loc(b), f"formulate: `{unparse(a)[:60]}` and `{unparse(b)[:60]}` on one path")
 
 
-def _guarded_against(tests: list[tuple], domain: str, par: str, key: str) -> bool:
+def _guarded_against(tests: list[tuple], domain: str, par: str, key: str, rd: RD | None = None) -> bool:
     """Does one of the tests evaluated in this iteration exclude the removed family?  Accepted
-    idioms: a test that mentions the family's domain expression, or a membership test of the
+    idioms: a test that mentions the family's domain expression (or a local with a definition
+    `ids = <domain>`, e.g. `ids = <domain>; if ids is None: ids = set()`), or a membership test of the
     key itself (the symbol, not a property of it) in the parameter mapping."""
+    def mentions(e: ast.AST) -> bool:
+        return any(isinstance(m, (ast.Attribute, ast.Name)) and unparse(m) == domain for m in ast.walk(e))
+
     for _, test, _ in tests:
+        if mentions(test):
+            return True
+        # a local of the test that is *bound to* the domain (not merely data-dependent on it): direct definitions only
+        if rd is not None and any(d.kind == "assign" and d.value is not None and isinstance(d.value, (ast.Name, ast.Attribute)) and unparse(d.value) == domain
+                                  for d in rd.uses(test)):
+            return True
         for n in ast.walk(test):
-            if isinstance(n, (ast.Attribute, ast.Name)) and unparse(n) == domain:
-                return True
             if isinstance(n, ast.Compare) and len(n.ops) == 1 and isinstance(n.ops[0], (ast.In, ast.NotIn)):
                 if isinstance(n.left, ast.Name) and n.left.id == key and unparse(n.comparators[0]) == par:
                     return True
@@ -475,7 +512,7 @@ def _may_be_in(kin: str, key: ast.AST, rd: RD) -> bool:
 
 def check_create(ctx: Check, tree: Tree) -> None:
     for name in ("__generate_amplitude_coefficient", "__generate_helicity_coupling"):
-        fn = tree.func(f"{BUILDER}.{name}")
+        fn = flatten(tree, tree.func(f"{BUILDER}.{name}"))
         rd = RD(fn.node)
         created = [d for d in rd.defs if d.value is not None and isinstance(d.value, ast.Call) and tree.callee(d.value, fn) == "sympy.Symbol"]
         stored = {unparse(n.targets[0].slice) for n in walk_function(fn.node) if isinstance(n, ast.Assign) and isinstance(n.targets[0], ast.Subscript) and "parameter_defaults" in unparse(n.targets[0].value)}
@@ -483,7 +520,7 @@ def check_create(ctx: Check, tree: Tree) -> None:
         ok = len(created) == 1 and created[0].name in stored and created[0].name in returned
         ctx.verdict(ok, "R-CREATE", f"{fn.qual}::registered", tree.loc(fn.node), f"{name}: the created symbol is stored in parameter_defaults and returned",
                     None if ok else {"created": [d.name for d in created], "stored": sorted(stored), "returned": sorted(returned)})
-    dyn = tree.func(f"{BUILDER}.__formulate_dynamics")
+    dyn = flatten(tree, tree.func(f"{BUILDER}.__formulate_dynamics"))  # the registration loop may live in a private helper
     drd = RD(dyn.node)
     ok = False
     for loop in [n for n in walk_function(dyn.node) if isinstance(n, ast.For) and isinstance(n.iter, ast.Call) and isinstance(n.iter.func, ast.Attribute) and n.iter.func.attr == "items"]:
@@ -497,7 +534,10 @@ def check_create(ctx: Check, tree: Tree) -> None:
         for st in walk_function(loop):
             if isinstance(st, ast.Assign) and isinstance(st.targets[0], ast.Subscript) and "parameter_defaults" in unparse(st.targets[0].value) \
                     and unparse(st.targets[0].slice) == k and unparse(st.value) == v and not any(isinstance(a, ast.If) for a in _anc_until(st, loop)):
-                ok = True
+                # ... and no earlier statement of the iteration can skip it (`if ...: continue` is a condition too)
+                before = loop.body[: loop.body.index(st)] if st in loop.body else None
+                if before is not None and not any(isinstance(n, (ast.Continue, ast.Break, ast.Return)) for b in before for n in ast.walk(b)):
+                    ok = True
     ctx.verdict(ok, "R-CREATE", f"{dyn.qual}::registers-builder-parameters", tree.loc(dyn.node), "__formulate_dynamics registers every parameter suggested by the dynamics builder (unconditionally)")
 
 
@@ -512,7 +552,7 @@ def check_backsubstitution(ctx: Check, tree: Tree) -> None:
     """Clause (d), structural part: the alignment-angle definitions that become kinematic
     variables are back-substituted with the (completed) kinematic variables, so that only
     four-momenta and parameters remain."""
-    fn = tree.func(FORMULATE)
+    fn = flatten(tree, tree.func(FORMULATE))
     rd = RD(fn.node)
     loops = [n for n in walk_function(fn.node) if isinstance(n, ast.For) and "alignment_symbols" in unparse(n.iter)]
     if len(loops) != 1:
@@ -529,14 +569,15 @@ def check_backsubstitution(ctx: Check, tree: Tree) -> None:
         idx = loop.body.index(st)
         # the last definition of the stored value is `<expr>.xreplace(<kinematic variables>)` ...
         val = st.value
-        defs = rd.reaching(val) if isinstance(val, ast.Name) else set()
-        ok_def = bool(defs) and all(d.value is not None and isinstance(d.value, ast.Call) and isinstance(d.value.func, ast.Attribute) and d.value.func.attr == "xreplace"
-                                    and d.value.args and unparse(d.value.args[0]) == kin for d in defs)
+        # (value, statement that computes it): the definitions of the stored name, or the stored expression itself
+        computed = [(d.value, d.node) for d in rd.reaching(val)] if isinstance(val, ast.Name) else [(val, st)]
+        ok_def = bool(computed) and all(v is not None and isinstance(v, ast.Call) and isinstance(v.func, ast.Attribute) and v.func.attr == "xreplace"
+                                        and v.args and unparse(v.args[0]) == kin for v, _ in computed)
         if not ok_def:
             problems.append(f"the stored definition `{unparse(val)}` is not `<angle expression>.xreplace({kin})`")
         # ... and it is computed after the loop that completes the kinematic variables
         inner = [i for i, n in enumerate(loop.body) if isinstance(n, ast.For)]
-        def_positions = [loop.body.index(d.node) for d in defs if d.node in loop.body]
+        def_positions = [loop.body.index(at) for _, at in computed if at in loop.body]
         if inner and def_positions and min(def_positions) < max(inner):
             problems.append("the substitution happens before the missing mass definitions are added")
         if unparse(st.targets[0].slice) != unparse(loop.target.elts[0] if isinstance(loop.target, ast.Tuple) else loop.target):
